@@ -21,8 +21,8 @@ pub fn property() -> Property {
             "bytes::BytesMut / tokio_util codec traits",
         ],
         families: vec![
-            (Box::new(FrameFam), 20_000, 400_000),
-            (Box::new(StreamFam), 20_000, 600_000),
+            (Box::new(FrameFam), 150_000, 1_200_000),
+            (Box::new(StreamFam), 150_000, 1_200_000),
         ],
     }
 }
